@@ -12,11 +12,14 @@ import (
 	"os"
 	"sort"
 	"strconv"
+	"strings"
 	"time"
 
 	"verif/engine/ev"
 	"verif/engine/rigs/clirig"
 )
+
+var histSamples []interface{}
 
 type histStats struct {
 	states, transitions          int
@@ -41,8 +44,12 @@ func alphabet(ops []string, snaps []int) []clirig.Event {
 	return l
 }
 
-func allSnaps() []int {
-	l := make([]int, len(clirig.Snaps))
+func allSnaps(thorough bool) []int {
+	n := clirig.QuickSnaps
+	if thorough {
+		n = len(clirig.Snaps)
+	}
+	l := make([]int, n)
 	for i := range l {
 		l[i] = i
 	}
@@ -125,7 +132,7 @@ func bfs(c *ev.Check, r *runner, a *agg, layer string, events []clirig.Event, de
 		var tasks []Task
 		for _, st := range frontier {
 			for _, e := range events {
-				tasks = append(tasks, Task{ID: len(tasks), Hist: mk(extend(st.hist, e)), WantKey: len(out.samples) < 4 && len(tasks)%97 == 5})
+				tasks = append(tasks, Task{ID: len(tasks), Hist: mk(extend(st.hist, e)), WantKey: len(tasks)%97 == 5 && len(tasks) < 2000})
 			}
 		}
 		res, ok, died := r.run(tasks, end)
@@ -137,8 +144,8 @@ func bfs(c *ev.Check, r *runner, a *agg, layer string, events []clirig.Event, de
 				continue
 			}
 			out.transitions++
-			if x.Hist.Key != "" && len(out.samples) < 4 {
-				out.samples = append(out.samples, map[string]interface{}{"history": fmt.Sprint(tasks[i].Hist.Events), "state_key": x.Hist.Key})
+			if x.Hist.Key != "" && len(out.samples) <= d && d <= 3 { // one sample per level
+				out.samples = append(out.samples, map[string]interface{}{"history": fmt.Sprint(tasks[i].Hist.Events), "state_key_after_last_event": x.Hist.Key, "read_calls_judged": x.Hist.Calls, "reads_that_refreshed": x.Hist.Misses, "responses_served": x.Hist.Served})
 			}
 			if _, seen := out.keys[x.KeyHash]; !seen {
 				out.keys[x.KeyHash] = d
@@ -268,8 +275,16 @@ func differential(c *ev.Check, r *runner, a *agg, name string, events []clirig.E
 }
 
 func bfsInfo(b *bfsOut, depth int, wall time.Duration) map[string]interface{} {
-	m := map[string]interface{}{"depth_bound": depth, "completed_depth": b.completed, "states": len(b.keys), "transitions": b.transitions, "new_states_per_level": b.perLevel,
-		"read_calls_judged": b.calls, "reads_that_refreshed_on_a_miss": b.misses, "reads_that_refreshed_by_api": b.missByOp, "responses_served_and_folded": b.served,
+	miss, open := map[string]int{}, map[string]int{}
+	for k, n := range b.missByOp {
+		if strings.HasPrefix(k, "open:") {
+			open[k] = n
+		} else {
+			miss[k] = n
+		}
+	}
+	m := map[string]interface{}{"depth_bound": depth, "open_points_hit": open, "completed_depth": b.completed, "states": len(b.keys), "transitions": b.transitions, "new_states_per_level": b.perLevel,
+		"read_calls_judged": b.calls, "reads_that_refreshed_on_a_miss": b.misses, "reads_that_refreshed_by_api": miss, "responses_served_and_folded": b.served,
 		"distinct_observation_vectors": len(b.obsHashes), "wall_s": wall.Seconds()}
 	if b.fixpoint > 0 {
 		m["fixpoint"] = fmt.Sprintf("level %d produced no new state: the reachable state graph over this alphabet is closed, histories of any length stay inside the visited set", b.fixpoint)
@@ -288,12 +303,12 @@ func historyLayer(c *ev.Check, r *runner, a *agg, thorough bool, end time.Time) 
 		depth = v
 	}
 	ops := opsOf(thorough)
-	events := alphabet(ops, allSnaps())
-	info := map[string]interface{}{"events": len(events), "event_ops": ops, "snapshots": len(clirig.Snaps), "depth_bound": depth,
+	events := alphabet(ops, allSnaps(thorough))
+	info := map[string]interface{}{"events": len(events), "event_ops": ops, "snapshots": len(allSnaps(thorough)), "depth_bound": depth,
 		"event_rule": "event = (operation, snapshot): the cluster switches to the snapshot, then the operation runs (R = RefreshMetadata(), R:x = RefreshMetadata(x), the others are read API calls that refresh by themselves on a miss); after the last event of an execution ALL read APIs for topics t,u × partitions 0..2 are compared with the reference fold"}
 	var names []string
-	for _, s := range clirig.Snaps {
-		names = append(names, s.Name)
+	for _, i := range allSnaps(thorough) {
+		names = append(names, clirig.Snaps[i].Name)
 	}
 	info["snapshot_names"] = names
 	total := time.Until(end)
@@ -357,9 +372,7 @@ func historyLayer(c *ev.Check, r *runner, a *agg, thorough bool, end time.Time) 
 		fmt.Printf("  history: variant rm=%d full=%v: depth %d/%d fixpoint@%d, %d states, %d transitions (%.1fs)\n", v.rm, !v.part, vb.completed, vdepth, vb.fixpoint, len(vb.keys), vb.transitions, time.Since(tv).Seconds())
 	}
 	info["variants"] = variants
-	for _, s := range b.samples {
-		c.AddSample(s)
-	}
+	histSamples = b.samples
 	c.Set("history", info)
 	return hs, ok
 }
